@@ -10,6 +10,7 @@
  *     k:kill          SIGKILL is raised instead of performing call k
  *     k:run=CMD       CMD is run to completion (sh -c, without LD_PRELOAD) before call k
  *   VFIO_XDEV=1       renameat between two different directories fails with EXDEV
+ *   VFIO_DTUNKNOWN=1  readdir reports d_type DT_UNKNOWN for every entry (XFS without ftype, some NFS)
  *   VFIO_TIME, VFIO_PID, VFIO_HOST, VFIO_RANDOM   pin time(), getpid(), gethostname(), arc4random()
  *   VFIO_ROOT         path prefix stripped from logged paths
  *
@@ -523,6 +524,7 @@ struct dirent *readdir(DIR *d) {
 		const char *dn = fdname(dirfd(d), b1, sizeof b1);
 		if (pl.act == A_ERRNO) { r = NULL; errno = pl.err; } else r = real_readdir(d);
 		e = errno;
+		if (r && getenv("VFIO_DTUNKNOWN")) r->d_type = DT_UNKNOWN;   /* a file system that does not report file types */
 		if (r) RES("%ld readdir %s = %s", k, dn, r->d_name);
 		else RES("%ld readdir %s = NULL%s%s", k, dn, pl.act == A_ERRNO ? " " : "", pl.act == A_ERRNO ? errname(e) : "");
 		errno = e; return r;
